@@ -400,7 +400,8 @@ def check_wls_case(ctx, c, opts, known_weights=None, compare_full=True):
                 # same rows only up to permutation: compare the sorted fitted residual norms
                 r_code = float((cap["w"] * (cap["y"] - fit_code) ** 2).sum())
                 r_mod = float((wm * (ym - fm) ** 2).sum())
-                if abs(r_code - r_mod) > 1e-6 * max(r_mod, 1e-30) + 1e-18:
+                # LSQR stops at a relative residual tolerance; at round-off level (noise-free data) both are numerical zeros
+                if abs(r_code - r_mod) > 1e-6 * r_mod + 1e4 * floor * dof:
                     ctx.mismatch("Wls.solve WSSR (rank-deficient)", desc, r_mod, r_code)
     # ---------------- the property itself (independent of the Lean model)
     R = solve_spec(S_own)
